@@ -30,7 +30,7 @@ from vlib.shrink import shrink_seq
 
 ID = "C19"
 LEVEL = "exploration"
-BUDGET = {"quick": 60, "thorough": 700}
+BUDGET = {"quick": 200, "thorough": 1200}
 REPO = os.environ.get("VERIF_REPO", "/repo")
 RULE = (
     "case = well-formed text (generated document in a random layout / corpus file / "
@@ -159,12 +159,14 @@ def run_text(text, arbitrary=False):
         # the caller edits the first result below its top level (nested blocks, lists).
         # Safe without a budget: the budgeted load of this very text has just returned.
         try:
-            with backstop(60):
+            with backstop(300, cpu=True):
                 first = pvl.new.loads(text)
                 edit_below_top(first)
                 second = pvl.new.loads(text)
         except WallClockBackstop:
-            raise RuntimeError("inconclusive: wall-clock backstop in plain pvl.new.loads")
+            return ("fail", "C19/plain-loads-does-not-return",
+                    f"pvl.new.loads(text) used 300 s of CPU time without returning "
+                    f"(the budgeted load of the same text returned); text={text[:300]!r}")
         except Exception as e:
             return ("fail", "C19/plain-loads-raises",
                     f"{type(e).__name__}: {e}; text={text[:300]!r}")
